@@ -269,6 +269,35 @@ func runPage(w *gen.Writer, ps pageSpec, class string) {
 		w.Emit(gen.Case{In: "occ " + strings.Join(cl, ","), Impl: h, Class: "occurrence:" + ps.Page, Nontrivial: true, Detail: detail})
 	}
 	w.Count("occurrences-checked", len(seen))
+	// "renders as text": in the parsed document, every sentinel-delimited piece of a text node or plain-text attribute is
+	// exactly the value that was put in (for values the HTML parser does not itself normalise: valid UTF-8, no NUL, no CR)
+	clean := true
+	for _, p := range pieces {
+		if !utf8.ValidString(p) || strings.ContainsAny(p, "\x00\r") {
+			clean = false
+		}
+	}
+	if clean {
+		ds, err := domStrings(attack.body)
+		if err == nil {
+			pset := map[string]bool{}
+			for _, p := range pieces {
+				pset[p] = true
+			}
+			n := 0
+			for _, d := range ds {
+				for _, o := range occurrences([]byte(d)) {
+					n++
+					if !pset[string(o)] {
+						w.Emit(gen.Case{Class: "dom-text:" + ps.Page, Go: fmt.Sprintf("the document shows %q where the value was %q", clipStr(string(o), 120), clipStr(pieces[0], 120)),
+							Key: "value-not-rendered-as-the-same-text:" + ps.Page, Detail: detail})
+						return
+					}
+				}
+			}
+			w.Count("dom-text-occurrences-checked", n)
+		}
+	}
 }
 
 func firstDiff(a, b string) string {
